@@ -9,6 +9,9 @@
 // run:   ./domfuzz <domain> <first seed> <number of seeds> [steps]
 #include "crab_lang.hpp"
 #include "crab_dom.hpp"
+#include <crab/domains/numerical_packing.hpp>
+#include <crab/domains/value_partitioning_domain.hpp>
+#include <crab/domains/congruences.hpp>
 #include <array>
 #include <set>
 #include <sstream>
@@ -104,6 +107,7 @@ template <class Dom> struct fuzz {
       if (q == 1) { o2 << "forget " << v[y].name().str() << "; expand(" << v[x].name().str() << ", " << v[y].name().str() << ")"; log(o2.str());
         d -= v[y]; d.expand(v[x], v[y]); cset n; for (auto s : cs) { s[y] = s[x]; n.insert(s); } for (auto s : cs) { n.insert(s); if (n.size() > CAP) break; }   // y takes any value x can take: y = x and, for two states, swapped
         cset n2; for (auto s : cs) { s[y] = s[x]; n2.insert(s); } cs = n2; return check(d, cs, "expand"); }
+      if (q == 2 && getenv("NORENAME")) q = 3;   // the packing domains keep a forgotten variable in their partition and rename onto it ends the process
       if (q == 2) { o2 << "forget " << v[y].name().str() << "; rename " << v[x].name().str() << " -> " << v[y].name().str(); log(o2.str());
         d -= v[y]; d.rename({v[x]}, {v[y]}); cset n; for (auto s : cs) { s[y] = s[x]; s[x] = r.in(-6, 6); n.insert(s); } cs = n; return check(d, cs, "rename"); }
       { o2 << "forget {" << v[x].name().str() << ", " << v[y].name().str() << "}"; log(o2.str()); d.forget({v[x], v[y]});
@@ -236,6 +240,7 @@ template <class Dom> struct fuzz {
   }
 };
 
+typedef crab::domains::sign_domain<z_number, varname_t> SIGN_DOM; typedef crab::domains::sign_constant_domain<z_number, varname_t> SIGNCST_DOM; typedef ikos::congruence_domain<z_number, varname_t> CONG_DOM;
 static bool g_use_bool = false;
 // CHAIN=1 (C05): w_{k+1} = w_k widen (w_k | y_k) with y_k = a few random operations applied to w_k (a loop body) must become
 // stationary for EVERY sequence y_k: a change in the last third of CHAIN_ITERS (default 300) iterations is reported.
@@ -288,5 +293,7 @@ int main(int argc, char **argv) {
   D("termdbm", z_term_dbm_t) D("num", z_num_domain_t) D("tvpi", z_fixed_tvpi_domain_t) D("boolnum", z_bool_num_domain_t)
   D("boolint", z_bool_interval_domain_t) D("aabool", z_aa_bool_int_t) D("asbool", z_as_bool_num_t) D("aaint", z_aa_int_t) D("assdbm", z_as_sdbm_t) D("lw", z_soct_domain_lw_t) D("powaa", z_pow_aa_int_t)
   D("aaterm", z_aa_term_int_t) D("asdis", z_as_dis_int_t) D("rgnint", z_rgn_int_t) D("rgnsdbm", z_rgn_sdbm_t) D("rgnsign", z_rgn_sign_t) D("rgncst", z_rgn_constant_t) D("rgnsc", z_rgn_sign_constant_t) D("rgnbool", z_rgn_bool_int_t)
+  D("pack", crab::domains::numerical_packing_domain<z_sdbm_domain_t>) D("packint", crab::domains::numerical_packing_domain<z_interval_domain_t>) D("vp", crab::domains::product_value_partitioning_domain<z_sdbm_domain_t>)
+  D("sign", SIGN_DOM) D("signcst", SIGNCST_DOM) D("cong", CONG_DOM)
   crab::outs() << "unknown domain\n"; return 2;
 }
